@@ -1229,3 +1229,155 @@ Proof.
     cbn [forallb] in P. rewrite andb_true_r in P. exact P.
   - apply (xml_tree_decodes v Hl r Er He).
 Qed.
+
+(* ====================================================================== *)
+(*  forests at top level (fragments as ToHtml writes them)                *)
+(* ====================================================================== *)
+
+Lemma tree_of_f_forest : forall f cur b, tree_of_f (flat_map ops_of f) cur [] b = Some (rev cur ++ f).
+Proof.
+  induction f as [|n f IH]; intros cur b.
+  - simpl. rewrite app_nil_r. reflexivity.
+  - cbn [flat_map]. rewrite tree_of_f_ops, IH. cbn [rev]. rewrite <- app_assoc. reflexivity.
+Qed.
+
+Theorem tree_of_forest : forall f, tree_of (flat_map ops_of f) = Some f.
+Proof. intro f. unfold tree_of. rewrite tree_of_f_forest. reflexivity. Qed.
+
+(* ---------- a balanced call sequence never makes the writer panic ---------- *)
+
+Lemma do_open_stack : forall c tag st, w_open (snd (do_open c tag st)) = tag :: w_open st.
+Proof.
+  intros c tag [o d i t]. unfold do_open, write_raw, check_open_tag, check_indent, new_line.
+  destruct i, t, (c_pretty c); reflexivity.
+Qed.
+
+Lemma do_write_stack : forall c s st, w_open (snd (do_write c s st)) = w_open st.
+Proof.
+  intros c s [o d i t]. unfold do_write, check_open_tag, check_indent.
+  destruct i, t, (c_pretty c); reflexivity.
+Qed.
+
+Lemma do_attr_state : forall c k v st, snd (do_attr c k v st) = st.
+Proof. intros c k v [o d i t]. unfold do_attr. destruct t; reflexivity. Qed.
+
+Lemma do_close_stack : forall c st top rest, w_open st = top :: rest ->
+  exists ch st', do_close c st = Some (ch, st') /\ w_open st' = rest.
+Proof.
+  intros c [o d i t] top rest H. cbn [w_open] in H. subst o.
+  unfold do_close, write_raw, check_open_tag, check_indent, new_line.
+  destruct i, t, (c_avoid c), (c_pretty c); cbn; eexists; eexists; split; reflexivity.
+Qed.
+
+Lemma run_cons_gen : forall c st o ops,
+  run c st (o :: ops) =
+  match step c st o with Some (ch, st1) => prepend ch (run c st1 ops) | None => None end.
+Proof. intros. cbn [run]. destruct (step c st o) as [[ch st1]|]; reflexivity. Qed.
+
+Definition total_node (c : wcfg) (n : node) : Prop :=
+  forall st more, exists ch st',
+    run c st (ops_of n ++ more) = prepend ch (run c st' more) /\ w_open st' = w_open st.
+
+Lemma run_total_forest : forall c f, Forall (total_node c) f -> forall st more, exists ch st',
+  run c st (flat_map ops_of f ++ more) = prepend ch (run c st' more) /\ w_open st' = w_open st.
+Proof.
+  intros c. induction f as [|n f IH]; intros HF st more.
+  - exists [], st. split; [rewrite prepend_nil; reflexivity|reflexivity].
+  - inversion HF as [|? ? Hn Hf]; subst. cbn [flat_map]. rewrite <- app_assoc.
+    destruct (Hn st (flat_map ops_of f ++ more)) as [c1 [st1 [E1 O1]]].
+    destruct (IH Hf st1 more) as [c2 [st2 [E2 O2]]].
+    exists (c1 ++ c2), st2. split; [rewrite E1, E2, prepend_app; reflexivity|congruence].
+Qed.
+
+Lemma run_total_attrs : forall c a st more, exists ch,
+  run c st (map (fun kv => OAttr (fst kv) (snd kv)) a ++ more) = prepend ch (run c st more).
+Proof.
+  intros c. induction a as [|[k v] a IH]; intros st more.
+  - exists []. rewrite prepend_nil. reflexivity.
+  - cbn [map app fst snd]. rewrite run_cons_gen. cbn [step].
+    pose proof (do_attr_state c k v st) as E. destruct (do_attr c k v st) as [c1 st1]. cbn [snd] in E. subst st1.
+    destruct (IH st more) as [c2 E2]. exists (c1 ++ c2). rewrite E2, prepend_app. reflexivity.
+Qed.
+
+Theorem run_total : forall c n, total_node c n.
+Proof.
+  intros c. induction n as [s|name a kids IH] using node_ind'; intros st more.
+  - cbn [ops_of app]. rewrite run_cons_gen. cbn [step].
+    pose proof (do_write_stack c s st) as E. destruct (do_write c s st) as [c1 st1]. cbn [snd] in E.
+    exists c1, st1. split; [reflexivity|exact E].
+  - cbn [ops_of app]. rewrite run_cons_gen. cbn [step].
+    pose proof (do_open_stack c name st) as E. destruct (do_open c name st) as [c1 st1]. cbn [snd] in E.
+    rewrite <- !app_assoc.
+    destruct (run_total_attrs c a st1 (flat_map ops_of kids ++ [OClose] ++ more)) as [c2 E2]. rewrite E2.
+    destruct (run_total_forest c kids IH st1 ([OClose] ++ more)) as [c3 [st3 [E3 O3]]].
+    rewrite E3. cbn [app]. rewrite run_cons_gen. cbn [step].
+    destruct (do_close_stack c st3 name (w_open st) ltac:(congruence)) as [c4 [st4 [E4 O4]]].
+    rewrite E4. exists (((c1 ++ c2) ++ c3) ++ c4), st4. split; [rewrite !prepend_app; reflexivity|exact O4].
+Qed.
+
+(* every balanced call sequence runs to the end and leaves nothing open *)
+Theorem run_forest_ok : forall c f, exists out st,
+  run c w_init (flat_map ops_of f) = Some (out, st) /\ w_open st = [].
+Proof.
+  intros c f.
+  destruct (run_total_forest c f ltac:(apply Forall_forall; intros; apply run_total) w_init []) as [ch [st [E O]]].
+  rewrite app_nil_r in E. exists (ch ++ []), st. split; [rewrite E; reflexivity|exact O].
+Qed.
+
+(* ---------- unmixed forests parse back ---------- *)
+
+Section Forest.
+Variables tt ta : esc_table.
+Hypothesis Hok : xml_table_ok tt ta = true.
+Variables av pr : bool.
+
+Lemma write_A0 : forall s,
+  step (cfg tt ta av pr) (stA [] (-1)) (OWrite s) = Some (esc_str tt s, stC [] (-1)).
+Proof. intros. unfold cfg. destruct pr; reflexivity. Qed.
+
+Theorem forest_wellformed : forall f, unmixed_forest f = true -> forallb wf_node f = true ->
+  exists out st, run (cfg tt ta av pr) w_init (flat_map ops_of f) = Some (out, st) /\
+                 xml_fragment out = Some (canon_forest f).
+Proof.
+  intros f Hu Hw. unfold unmixed_forest in Hu. apply andb_true_iff in Hu. destruct Hu as [Hmix Hun].
+  unfold canon_forest. destruct (forallb is_tx f) eqn:Etx.
+  - (* character data only *)
+    destruct f as [|x f'].
+    + exists [], w_init. split; reflexivity.
+    + pose proof (all_tx_legal (x :: f') Etx Hw) as Hl.
+      pose proof (all_tx_core tt ta av pr 0 (x :: f') Etx) as Ec.
+      cbn [forallb] in Etx. apply andb_true_iff in Etx. destruct Etx as [Ex Er].
+      destruct x as [|s]; [discriminate|].
+      exists (esc_str tt (tx_concat (Tx s :: f'))), (stC [] (-1)). split.
+      * cbn [flat_map ops_of app]. change w_init with (stA [] (-1)).
+        rewrite run_cons, write_A0.
+        rewrite <- (app_nil_r (flat_map ops_of f')).
+        rewrite (run_text_C tt ta av pr 0 f' [] (-1)%Z [] Er).
+        cbn [run prepend]. rewrite app_nil_r. rewrite <- Ec. reflexivity.
+      * unfold xml_fragment. set (S0 := tx_concat (Tx s :: f')) in *.
+        assert (HF : (length (esc_str tt S0 ++ []) < S (length (esc_str tt S0)))%nat) by (rewrite app_nil_r; lia).
+        destruct (content_text tt ta Hok S0 [] [] [] _ Hl HF) as [f1 [Hf1 E1]].
+        rewrite app_nil_r in E1. rewrite E1.
+        destruct f1 as [|g]; [simpl in Hf1; lia|].
+        cbn [content]. rewrite finish_text. unfold tx_join. fold S0. destruct S0; reflexivity.
+  - (* elements only *)
+    assert (Hels : forallb is_el f = true) by exact Hmix.
+    assert (Hne : f <> []) by (intro; subst; discriminate).
+    assert (HE : Forall (emits tt ta av pr) f).
+    { rewrite Forall_forall. rewrite forallb_forall in Hels, Hun. intros n Hin. apply writer_emits; auto. }
+    assert (HC : Forall (core_ok tt ta av pr) f).
+    { rewrite Forall_forall. rewrite forallb_forall in Hels, Hun, Hw. intros n Hin. apply core_parse; auto. }
+    exists (kids_str tt ta av pr 0 f), (stA [] (-1)). split.
+    + pose proof (run_kids_A tt ta av pr f HE (-1)%Z [] []) as H. rewrite app_nil_r in H.
+      change w_init with (stA [] (-1)). rewrite H. cbn [run prepend]. rewrite app_nil_r. reflexivity.
+    + unfold xml_fragment.
+      assert (HF : (length (kids_str tt ta av pr 0 f ++ []) < S (length (kids_str tt ta av pr 0 f)))%nat)
+        by (rewrite app_nil_r; lia).
+      destruct (kids_parse tt ta av pr 0 f HC [] [] [] _ eq_refl HF) as [f1 [p1 [Hp1 [Hf1 E1]]]].
+      rewrite app_nil_r in E1. rewrite E1.
+      destruct f1 as [|g]; [simpl in Hf1; lia|].
+      cbn [content]. unfold finish. rewrite (existsb_rev_map_canon f Hne Hels).
+      rewrite (flush_ws p1 _ Hp1). rewrite app_nil_r, rev_involutive. reflexivity.
+Qed.
+
+End Forest.
